@@ -37,7 +37,8 @@ def run(rep, tier, seed):
     nrect = 300000 if tier == 'quick' else 1000000
     scen += [('boolean-int', nrect, 'main'), ('boolean-dif', nrect, 'main'), ('boolean-int', nrect // 3, 'thread'),
              ('boolean-intdesc', 2 * nrect, 'main'), ('boolean-intmix', nrect, 'main'), ('boolean-intdesc', nrect // 2, 'thread'),
-             ('boolean-intmix', nrect // 2, 'thread')]
+             ('boolean-intmix', nrect // 2, 'thread'), ('boolean-uni', nrect // 2, 'thread'), ('boolean-xor', nrect // 2, 'thread'),
+             ('boolean-inthit', nrect // 2, 'thread')]
     t0 = time.time()
     with ThreadPoolExecutor(max_workers=6) as ex:
         res = list(ex.map(run_child, scen))
